@@ -35,6 +35,9 @@ def known_excl(init, bound, cmp_, side, pos):
     return '%s < %s%s' % (I, B, ' - 1' if incl else '')
 
 
+NEG = 'launch_negative && nvis[0] == 0'   # the sequential loop is empty and the launcher computed a negative dimension
+
+
 def programs(tier, seed):
     U = 5
     fix = 2 if tier == 'thorough' else 1
@@ -75,7 +78,8 @@ def programs(tier, seed):
             okl = '@kernel void %s(%s) {\n%s}\n' % (name, SIG, body)
             p = O.Prog(name, okl, name, ARGS(tier), refcap=fix * U, cap=U + 1, unwind=fix * U + 2,
                        desc='%s as @%s; |args|<=2^14, 1<=s<=%d, sequential trip count <= %d' % (h.replace('ROLE', role), role, SMAX[tier], U),
-                       excl={'negative-trip-count': known_excl(init, bound, cmp_, side, pos)})
+                       )
+            p.excl_post = {'negative-trip-count': NEG}
             progs.append(p)
     # (3) multi-dimensional nests: index <-> dimension assignment
     NESTM = {'n2x2': ['Serial', 'CUDA', 'OpenCL'], 'n3x1': ['OpenMP', 'HIP', 'Metal'], 'n1x3': ['Serial', 'dpcpp', 'CUDA'], 'n2x1s': ['OpenMP', 'OpenCL', 'Metal']}
